@@ -23,7 +23,8 @@ RULE = (
     "pattern_map) with what `records` denote, checks one-owner uniqueness, that a rejection is a ValueError that changed "
     "nothing, and that success appended or merged exactly as specified (canonical prefix, URI prefix and pattern kept, "
     "everything new a synonym); then the driver asks the incremental converter and a converter freshly constructed from "
-    "copies of its records the same probe queries and compares the answers. key = multiset of step outcomes in the "
+    "copies of its records the same probe queries - those derived from the current records plus a pool of strings "
+    "that were already asked before the records making them resolvable arrived - and compares the answers. key = multiset of step outcomes in the "
     "history (append / merge / reject-no-merge / reject-multi, with case-insensitive marker); non-trivial = the history "
     "contains at least one merge or one rejection."
 )
@@ -100,9 +101,18 @@ def run_case(ctx, g, rng):
     outcomes = []
     steps = rng.randint(1, 8)
     hist = []
+    pool = []  # strings asked at every step, including ones that only a later record will make resolvable
     for _ in range(steps):
         cur = list(spec.snapshot(c))
         new, kind = new_record(rng, cur, d)
+        for p in spec.all_p(new):
+            pool.append(("c", p + d + "1"))
+            pool.append(("p", p))
+        for u in spec.all_u(new):
+            pool.append(("u", u + "1"))
+        pool = list(dict.fromkeys(pool))[-60:]
+        for k, q in pool:
+            ask(c, k, q)  # before the operation (monitored against the current records)
         cs = rng.random() < 0.6
         merge = rng.random() < 0.6
         if rng.random() < 0.5:
@@ -128,7 +138,7 @@ def run_case(ctx, g, rng):
         # differential against a freshly constructed converter
         if spec.is_unique(after):
             fresh = api.Converter([gen.mk_record(api, r) for r in after], delimiter=d)
-            for k, q in probe_strings(after, d, rng):
+            for k, q in probe_strings(after, d, rng) + pool:
                 probe.evaluated("fresh-differential")
                 a, b = ask(c, k, q), ask(fresh, k, q)
                 if a != b:
